@@ -3,15 +3,16 @@
 # confirms the change with try_mutant.sh, records what the checks reported, stores everything under seeded/<name>/
 cd "$(dirname "$0")/.."
 name=$1; tier=$2; shift 2
-rm -rf replays
 out=$(tools/try_mutant.sh /tmp/mut-$name $tier "$@" 2>&1)
-echo "$out" | tail -$(( $# + 1 )) | cut -c1-200
+echo "$out" | grep "^check " | cut -c1-200
 if ! echo "$out" | grep -q "^CONFIRMED"; then echo "NOT CONFIRMED: $name"; exit 1; fi
 python3 - "$name" "$tier" "$out" <<'PY'
 import json, glob, os, shutil, sys, re
 name, tier, out = sys.argv[1], sys.argv[2], sys.argv[3]
 hits = []
-for f in sorted(glob.glob('/verif/replays/*.json')):
+for f in sorted({'/verif/' + r for l in out.split('\n') if l.startswith('REPLAYS:') for r in l.split()[1:]}):
+    if not os.path.exists(f):
+        continue
     d = json.load(open(f))
     pid = d.get('property')
     if d.get('kind') == 'monitor':
@@ -33,4 +34,3 @@ d['caught_by'] = '; '.join(hits) if hits else 'NOT CAUGHT by the checks run'
 json.dump(d, open('/verif/seeded/%s/meta.json' % name, 'w'), indent=1)
 print("  ->", d['caught_by'][:300])
 PY
-rm -rf replays
